@@ -402,6 +402,28 @@ func genC13(rt *rapid.T) *c13Gen {
 		c.SoloTexts[r.Name] = gast.RuleString(r)
 	}
 	c.Text = b.String()
+	if k >= 2 && rapid.IntRange(0, 2).Draw(rt, "several_resources") == 0 {
+		// two resources, and between them one that mentions the same calls and is rejected as a whole
+		cut := rapid.IntRange(1, k-1).Draw(rt, "resource_cut")
+		var t1, t2 strings.Builder
+		for i, r := range rules {
+			if i < cut {
+				t1.WriteString(gast.RuleString(r) + "\n")
+			} else {
+				t2.WriteString(gast.RuleString(r) + "\n")
+			}
+		}
+		c.Texts = []string{t1.String(), t2.String()}
+		if rapid.Bool().Draw(rt, "rejected_between") {
+			src := rules[rapid.IntRange(0, cut-1).Draw(rt, "rejected_source")]
+			cp := &gast.Rule{Name: "ZRejected", When: src.When, Then: src.Then}
+			tail := "rule ZBroken { when F.I32 > then }\n"
+			if rapid.Bool().Draw(rt, "rejected_duplicate") {
+				tail = gast.RuleString(src) + "\n"
+			}
+			c.Rejected = []string{gast.RuleString(cp) + "\n" + tail}
+		}
+	}
 	st := gen.SeededState(rapid.Uint64Range(0, 1000).Draw(rt, "seed"), gen.StateCfg{D: gen.Small})
 	f := st.Go["F"]
 	f.I64 = int64(rapid.IntRange(0, 6).Draw(rt, "I64"))
